@@ -33,7 +33,7 @@ pub fn info() -> PropInfo {
         id: "C05",
         run,
         replay,
-        rule: "cases = (well-formed document over prefixes {none,p,q,i,r,xml}, URIs {u1,u2,u3,xsi,''} with declarations, re-declarations, un-declarations and shadowing to depth 5, prefixed/unprefixed attributes, xsi:nil under the real and foreign URIs, undeclared prefixes; history of consumer calls: at every read plain or resolving read, at every Start go on / skip with read_to_end* / read_text; slice, chunked or async source; expand_empty on/off). Oracle: the in-scope map computed from the tree. After every start/empty/end event: the ResolveResult of the resolving read, resolve_element(name), resolve_attribute(key) for every attribute, prefixes() as a set, has_nil. Small trees x ALL skip histories, larger trees random. Non-trivial = the history skips an element that carries a declaration and a later checked name would resolve differently if that scope had leaked.",
+        rule: "cases = (well-formed document over prefixes {none,p,q,i,r,xml}, URIs {u1,u2,u3,xsi,''} with declarations, re-declarations, un-declarations and shadowing to depth 5, prefixed/unprefixed attributes, xsi:nil under the real and foreign URIs, undeclared prefixes; history of consumer calls: at every read plain or resolving read, at every Start go on / skip with read_to_end* / read_text; slice, chunked or async source; expand_empty on/off). Oracle: the in-scope map computed from the tree. After every start/empty/end event: the ResolveResult of the resolving read, resolve_element(name), resolve_attribute(key) for every attribute, prefixes() as a set, has_nil. Small trees x ALL skip histories, larger trees random. Non-trivial = the history skips an element that carries a declaration and a later checked name would resolve differently if that scope had leaked. The prefix pool contains two pairs of long look-alike prefixes (same length, same first eight bytes).",
         assumptions: &["the scope is not inspected between a read_to_end*/read_text call and the next read", "documents are well-formed and free of illegal xml/xmlns bindings (those are errors)", "namespace URIs are compared as raw attribute bytes (the generator uses no references in them)"],
         level: "exploration",
         variants: &["full"],
